@@ -20,6 +20,9 @@ type Ref struct {
 
 func NewRef(fg, bg color.Color) Ref { return Ref{List: &[]color.Color{bg, fg}} }
 
+// Fillless returns the background colour (the default fill of Scale for barcodes that expose a colour scheme).
+func (r Ref) Fillless() color.Color { return (*r.List)[0] }
+
 // With returns a copy of the reference extended by one more fill colour.
 func (r Ref) With(fill color.Color) Ref {
 	l := append([]color.Color{}, (*r.List)...)
